@@ -179,8 +179,10 @@ def c01_optcheck(run, harnesses):
 
 
 PROPS["C01"] = dict(
-    modules=["Hpbf.Props.C01", "Hpbf.Props.C01Opt", "Hpbf.Props.C01Dse", "Hpbf.Props.ChainTotal", "Hpbf.Props.C01Loop", "Hpbf.Props.C01Rebuild", "Hpbf.Props.C01Rounds", "Hpbf.Props.ChainO1", "Hpbf.Props.C13Opt", "Hpbf.Props.C01Full", "Hpbf.Props.ChainOn"],
-    theorems=t("Hpbf.Chain", "anylevel_all_backends anylevel_exists level_le_one_all_backends optimize_zero optimizeCheck_level_le_one behEq_anylevel onceOk_anylevel irAgrees_anylevel ir_anylevel") +
+    modules=["Hpbf.Props.C01", "Hpbf.Props.C01Opt", "Hpbf.Props.C01Dse", "Hpbf.Props.ChainTotal", "Hpbf.Props.C01Loop", "Hpbf.Props.C01Rebuild", "Hpbf.Props.C01Rounds", "Hpbf.Props.ChainO1", "Hpbf.Props.C13Opt", "Hpbf.Props.C01Full", "Hpbf.Props.ChainOn", "Hpbf.Props.C01Fixed", "Hpbf.Props.ChainFinal"],
+    theorems=t("Hpbf.Chain", "all_levels_all_backends behEq_final onceOk_final irAgrees_final ir_final optimizeF_zero") +
+             t("Hpbf.OptProof", "optimizeF_level_le_one' optimizeF_preserves_all_levels'' optimizeF_onceOk_all_levels'' optimizeF_parse' optimizeOnceF_analIn' optimizeOnceF_analSound' dse_after_roundF' optimizeOnceF_later' optimizeF_no_panic' optimizeF_never_panics' optimizeF_total' optimizeF_canonL' optimizeF_reach' optimizeF_offsets'") +
+             t("Hpbf.Chain", "anylevel_all_backends anylevel_exists level_le_one_all_backends optimize_zero optimizeCheck_level_le_one behEq_anylevel onceOk_anylevel irAgrees_anylevel ir_anylevel") +
              t("Hpbf.OptProof", "optimizeOnce_analIn_l1' optimizeOnce_analIn_g' f13_miscompile' f13_miscompile_bf' f13b_miscompile' f13_check_false' fixed_analysis_sound optimizeF_preserves_all_levels' optimizeF_onceOk_all_levels'") +
              t("Hpbf.OptProof", "optimizeOnce_preserves_g' optimizeOnce_onceOk_g' laterRound_ok' prevAnalSound_of_check' optimize_preserves_of_check' optimize_onceOk_of_check' optimize_preserves_of_prevAnalSound' optimizeCheck_light' optimize_preserves_of_check_light' optimize_onceOk_of_check_light'") +
              t("Hpbf.OptTotal", "optimize_no_panic' optimize_never_panics optimize_total' optimize_canonL'") +
@@ -210,7 +212,7 @@ PROPS["C01"] = dict(
              dict(suite="levelcap", quick=400, thorough=20000, judge="const"),
              dict(suite="irecho", quick=300, thorough=5000, judge="tie")],
     corpus=["programs"], corpus_judge="program",
-    scope="ALL OPTIMISATION LEVELS ARE PROVED, WITHOUT ANY PER-RUN HYPOTHESIS, FOR THE REPAIRED OPTIMIZER (Props/C01Full): optimizeF_preserves_all_levels' — for every block in normal form (parser output is), width >= 1, level, oracle and environment, OptFix.optimizeF b level orders = .ok b' implies the same behaviour (forward, backward, prefix on events), and every loop marked `once` is entered with a non-zero condition (optimizeF_onceOk_all_levels'). OptFix.optimizeF = the exact port's optimizeOnce followed by the recomputation of the recorded clobbered sets (the repair of F13, implemented in /repo as the same post-pass; the optrun tie compares the Rust with optimizeF and distinguishes it from the unrepaired model in ~0.5% of the samples). The unrepaired optimizer is PROVED WRONG at level 2 by kernel-checked witnesses (f13_miscompile_bf', f13b_miscompile'), and the per-run test of C01Rounds is shown false there (f13_check_false'), i.e. the earlier conditional theorem was, correctly, silent. HEADLINE AT -O1 (Props/ChainO1, level1_all_backends): for every balanced source, width >= 1, environment and ANY oracle for which the optimizer model succeeds at level 1, canonical semantics, in-place interpreter, IR interpreter on the optimized IR, and the bytecode machine (both dispatch profiles) on translate of the optimized IR have the same set of results, and the JIT's machine code returns the canonical result under JitRange. OPTIMISATION LEVEL 1 IS PROVED (Props/C01Rebuild): for every IR block whose expressions are in normal form (parser output is), every width >= 1, every oracle of hash iteration orders and every environment, the exact optimizer model Opt.optimize b 1 returns a block with the same behaviour — forward, backward and prefix on the event trace (optimize_preserves_level1', optimize_parse_level1) — and every loop it marks `once` is entered with a non-zero condition (optimize_onceOk_level1'), which discharges the hypothesis of the bytecode/JIT chain at -O1. The proof covers the symbolic rebuild state (written/pending/reverse), Tarjan-ordered emission for every iteration order, clobbering, nested blocks with the parent chain, inlining, the wrapping if, loop analysis and loop motion; it FOUND two genuine miscompiles (F11, F12), both repaired. Towards levels 2 and 3 (Props/C01Rounds): the analysis a round records matches its output node by node, so dead store elimination never fails on it and its syntactic hypotheses hold (optimizeOnce_shapeOk', dse_total_after_round'); at_most_once/at_least_once facts hold; round 1 followed by DSE preserves behaviour given the one remaining clause ReadsFact (round1_dse_preserves'); optimize_preserves_of_steps' reduces every level to named per-step obligations. The rounds that USE the previous analysis are proved under the semantic hypothesis PrevAnalSound (laterRound_ok'), which has a PROVED-SOUND executable test: optimize_preserves_of_check' gives behaviour preservation at EVERY level whenever optimizeCheck N b level orders env = true; the test runs on every sampled program with the real iteration orders (optcheck stream). HEADLINE (Props/ChainTotal, level0_all_backends): for every balanced source, width >= 1 and environment the canonical semantics, the in-place interpreter, the IR interpreter, the bytecode machine in both dispatch profiles (p = translate (parse src), total) have the SAME set of results (ending kind + event trace), and the machine code of the JIT returns the canonical result (forward; full converse in limited mode) under explicit range hypotheses. Level 0 is FULL: for every balanced program, environment and width (w >= 1) the IR produced by "
+    scope="FINAL HEADLINE (Props/ChainFinal, all_levels_all_backends): for every balanced source, width >= 1, EVERY optimization level, every oracle for which the repaired optimizer model succeeds (a fitting one always exists and none makes it panic: Props/C01Fixed), every environment, register count and fuse mode: canonical semantics, in-place interpreter, IR interpreter on the optimized IR and bytecode machine (both dispatch profiles) on translate of it have the same set of results, and the JIT's machine code returns the canonical result under JitRange — no per-run test, no generator hypothesis. ALL OPTIMISATION LEVELS ARE PROVED, WITHOUT ANY PER-RUN HYPOTHESIS, FOR THE REPAIRED OPTIMIZER (Props/C01Full): optimizeF_preserves_all_levels' — for every block in normal form (parser output is), width >= 1, level, oracle and environment, OptFix.optimizeF b level orders = .ok b' implies the same behaviour (forward, backward, prefix on events), and every loop marked `once` is entered with a non-zero condition (optimizeF_onceOk_all_levels'). OptFix.optimizeF = the exact port's optimizeOnce followed by the recomputation of the recorded clobbered sets (the repair of F13, implemented in /repo as the same post-pass; the optrun tie compares the Rust with optimizeF and distinguishes it from the unrepaired model in ~0.5% of the samples). The unrepaired optimizer is PROVED WRONG at level 2 by kernel-checked witnesses (f13_miscompile_bf', f13b_miscompile'), and the per-run test of C01Rounds is shown false there (f13_check_false'), i.e. the earlier conditional theorem was, correctly, silent. HEADLINE AT -O1 (Props/ChainO1, level1_all_backends): for every balanced source, width >= 1, environment and ANY oracle for which the optimizer model succeeds at level 1, canonical semantics, in-place interpreter, IR interpreter on the optimized IR, and the bytecode machine (both dispatch profiles) on translate of the optimized IR have the same set of results, and the JIT's machine code returns the canonical result under JitRange. OPTIMISATION LEVEL 1 IS PROVED (Props/C01Rebuild): for every IR block whose expressions are in normal form (parser output is), every width >= 1, every oracle of hash iteration orders and every environment, the exact optimizer model Opt.optimize b 1 returns a block with the same behaviour — forward, backward and prefix on the event trace (optimize_preserves_level1', optimize_parse_level1) — and every loop it marks `once` is entered with a non-zero condition (optimize_onceOk_level1'), which discharges the hypothesis of the bytecode/JIT chain at -O1. The proof covers the symbolic rebuild state (written/pending/reverse), Tarjan-ordered emission for every iteration order, clobbering, nested blocks with the parent chain, inlining, the wrapping if, loop analysis and loop motion; it FOUND two genuine miscompiles (F11, F12), both repaired. Towards levels 2 and 3 (Props/C01Rounds): the analysis a round records matches its output node by node, so dead store elimination never fails on it and its syntactic hypotheses hold (optimizeOnce_shapeOk', dse_total_after_round'); at_most_once/at_least_once facts hold; round 1 followed by DSE preserves behaviour given the one remaining clause ReadsFact (round1_dse_preserves'); optimize_preserves_of_steps' reduces every level to named per-step obligations. The rounds that USE the previous analysis are proved under the semantic hypothesis PrevAnalSound (laterRound_ok'), which has a PROVED-SOUND executable test: optimize_preserves_of_check' gives behaviour preservation at EVERY level whenever optimizeCheck N b level orders env = true; the test runs on every sampled program with the real iteration orders (optcheck stream). HEADLINE (Props/ChainTotal, level0_all_backends): for every balanced source, width >= 1 and environment the canonical semantics, the in-place interpreter, the IR interpreter, the bytecode machine in both dispatch profiles (p = translate (parse src), total) have the SAME set of results (ending kind + event trace), and the machine code of the JIT returns the canonical result (forward; full converse in limited mode) under explicit range hypotheses. Level 0 is FULL: for every balanced program, environment and width (w >= 1) the IR produced by "
           "Program::parse, run by the IR interpreter model, has exactly the canonical event sequence, terminates iff "
           "the canonical run does, and every intermediate output is a canonical prefix (parse_forward/backward/prefix); "
           "the folding of odd-step loops is justified for every width. Levels >= 1: partial, see not_proved. The "
@@ -442,8 +444,9 @@ def c07_limited(run, harnesses):
 
 
 PROPS["C05"] = dict(
-    modules=["Hpbf.Props.C05", "Hpbf.Props.Chain", "Hpbf.Props.ChainTotal", "Hpbf.Props.ChainO1", "Hpbf.Props.ChainOn"],
-    theorems=t("Hpbf.Chain", "bc_never_returns_anylevel bc_runs_forever_anylevel bc_limited_interrupted_anylevel bc_divergent_output_anylevel jit_anylevel_divergent") +
+    modules=["Hpbf.Props.C05", "Hpbf.Props.Chain", "Hpbf.Props.ChainTotal", "Hpbf.Props.ChainO1", "Hpbf.Props.ChainOn", "Hpbf.Props.ChainFinal"],
+    theorems=t("Hpbf.Chain", "bc_never_returns_final bc_runs_forever_final bc_limited_interrupted_final bc_divergent_output_final jit_final_divergent") +
+             t("Hpbf.Chain", "bc_never_returns_anylevel bc_runs_forever_anylevel bc_limited_interrupted_anylevel bc_divergent_output_anylevel jit_anylevel_divergent") +
              t("Hpbf.Chain", "bc_never_returns_level1 bc_runs_forever_level1 bc_limited_interrupted_level1 bc_divergent_output_level1 jit_level1_divergent") +
              t("Hpbf.Chain", "bc_never_returns_unconditional bc_runs_forever_unconditional bc_limited_interrupted_unconditional bc_divergent_output_unconditional bc_terminates_unconditional jit_level0_divergent_unconditional") +
              t("Hpbf.Chain", "bc_never_returns bc_runs_forever bc_runs_forever_or_bad bc_limited_interrupted bc_terminates bc_divergent_output jit_level0_divergent") +
@@ -455,7 +458,7 @@ PROPS["C05"] = dict(
     streams=[],
     extra=[c05_divergence],
     corpus=["diverge"], corpus_judge="div",
-    scope="At -O1 TOO (Props/ChainO1): with b' the result of the optimizer model at level 1 for ANY oracle, divergence/termination and the output before divergence are preserved by the IR interpreter and the bytecode machine (bc_*_level1). Bytecode machine at level 0 (Props/Chain, from the composed refinement): a canonically divergent program never returns (unlimited and limited), a canonically terminating one terminates, and what a divergent program prints is a canonical prefix (bc_never_returns, bc_terminates, bc_divergent_output). Divergence certificates are sound (a canonical run that revisits a configuration never terminates; "
+    scope="AT EVERY OPTIMIZATION LEVEL (Props/ChainFinal): divergence and termination are preserved by the IR interpreter, the bytecode machine and (limited mode) the JIT on optimized code (bc_*_final): no infinite loop is removed, bounded or hoisted past an output, no finite loop made infinite. At -O1 TOO (Props/ChainO1): with b' the result of the optimizer model at level 1 for ANY oracle, divergence/termination and the output before divergence are preserved by the IR interpreter and the bytecode machine (bc_*_level1). Bytecode machine at level 0 (Props/Chain, from the composed refinement): a canonically divergent program never returns (unlimited and limited), a canonically terminating one terminates, and what a divergent program prints is a canonical prefix (bc_never_returns, bc_terminates, bc_divergent_output). Divergence certificates are sound (a canonical run that revisits a configuration never terminates; "
           "cert_diverges_sound, cert_halts_sound). For the in-place interpreter (all programs) and the IR "
           "interpreter at level 0 (all programs, w >= 1): canonical divergence implies the back end never returns "
           "(finished/stopped impossible for every fuel and budget), limited mode reports interrupted, everything "
@@ -477,8 +480,9 @@ PROPS["C05"] = dict(
 )
 
 PROPS["C07"] = dict(
-    modules=["Hpbf.Props.C07", "Hpbf.Props.C04", "Hpbf.Props.Chain", "Hpbf.Props.ChainTotal", "Hpbf.Props.ChainO1", "Hpbf.Props.ChainOn"],
-    theorems=t("Hpbf.Chain", "bc_limited_finished_anylevel bc_limited_prefix_anylevel bc_limited_enough_anylevel jit_anylevel_limited jit_anylevel_limited_enough") +
+    modules=["Hpbf.Props.C07", "Hpbf.Props.C04", "Hpbf.Props.Chain", "Hpbf.Props.ChainTotal", "Hpbf.Props.ChainO1", "Hpbf.Props.ChainOn", "Hpbf.Props.ChainFinal"],
+    theorems=t("Hpbf.Chain", "bc_limited_finished_final bc_limited_prefix_final bc_limited_enough_final jit_final_limited jit_final_limited_enough") +
+             t("Hpbf.Chain", "bc_limited_finished_anylevel bc_limited_prefix_anylevel bc_limited_enough_anylevel jit_anylevel_limited jit_anylevel_limited_enough") +
              t("Hpbf.Chain", "bc_limited_finished_level1 bc_limited_prefix_level1 bc_limited_enough_level1 ir_limited_level1 jit_level1_limited jit_level1_limited_enough") +
              t("Hpbf.Chain", "bc_limited_finished_unconditional bc_limited_is_prefix_unconditional bc_limited_enough_unconditional bc_limited_total_unconditional jit_level0_limited_unconditional jit_level0_limited_enough_unconditional") +
              t("Hpbf.Chain", "bc_limited_finished bc_limited_prefix bc_limited_is_prefix bc_limited_enough jit_level0_limited jit_level0_limited_enough") +
@@ -492,7 +496,7 @@ PROPS["C07"] = dict(
              dict(suite="bcrun", quick=80, thorough=4000, judge="bcrun")],
     extra=[c07_limited],
     corpus=["programs"], corpus_judge="program",
-    scope="At -O1 TOO (Props/ChainO1): with b' the result of the optimizer model at level 1 for ANY oracle, limited runs of the IR interpreter, the bytecode machine and the JIT are canonical prefixes / complete when finished. Bytecode machine and JIT at level 0 against the CANONICAL semantics (Props/Chain): a limited run that reports finished has the complete canonical events, any limited run's events are a canonical prefix, enough budget finishes (bc_limited_finished, bc_limited_is_prefix, bc_limited_enough; jit_level0_limited for the machine code). For the in-place interpreter (vs canonical semantics, all programs), the IR machine and the bytecode machine "
+    scope="AT EVERY OPTIMIZATION LEVEL (Props/ChainFinal): limited runs of the bytecode machine and the JIT on optimized code are canonical prefixes, complete when they report finished. At -O1 TOO (Props/ChainO1): with b' the result of the optimizer model at level 1 for ANY oracle, limited runs of the IR interpreter, the bytecode machine and the JIT are canonical prefixes / complete when finished. Bytecode machine and JIT at level 0 against the CANONICAL semantics (Props/Chain): a limited run that reports finished has the complete canonical events, any limited run's events are a canonical prefix, enough budget finishes (bc_limited_finished, bc_limited_is_prefix, bc_limited_enough; jit_level0_limited for the machine code). For the in-place interpreter (vs canonical semantics, all programs), the IR machine and the bytecode machine "
           "(limited vs unlimited run of the SAME program, all programs incl. malformed bytecode): a limited run that "
           "reports finished/stopped ends in the same state as the unlimited run; otherwise its events are a prefix; a "
           "budget >= the unlimited step count suffices to finish; limited runs terminate within an explicit fuel bound "
@@ -510,8 +514,9 @@ PROPS["C07"] = dict(
 )
 
 PROPS["C08"] = dict(
-    modules=["Hpbf.Props.C08", "Hpbf.Props.Chain", "Hpbf.Props.ChainTotal", "Hpbf.Props.ChainO1", "Hpbf.Props.ChainOn"],
-    theorems=t("Hpbf.Chain", "bc_stops_like_canonical_anylevel bc_stops_only_like_canonical_anylevel") +
+    modules=["Hpbf.Props.C08", "Hpbf.Props.Chain", "Hpbf.Props.ChainTotal", "Hpbf.Props.ChainO1", "Hpbf.Props.ChainOn", "Hpbf.Props.ChainFinal"],
+    theorems=t("Hpbf.Chain", "bc_stops_like_canonical_final bc_stops_only_like_canonical_final") +
+             t("Hpbf.Chain", "bc_stops_like_canonical_anylevel bc_stops_only_like_canonical_anylevel") +
              t("Hpbf.Chain", "bc_stops_like_canonical_level1 bc_stops_only_like_canonical_level1") +
              t("Hpbf.Chain", "bc_stops_like_canonical_unconditional bc_stops_only_like_canonical_unconditional") +
              t("Hpbf.Chain", "bc_stops_like_canonical bc_limited_stops_like_canonical bc_stops_only_like_canonical bc_refused_byte") +
@@ -525,7 +530,7 @@ PROPS["C08"] = dict(
     streams=[dict(suite="faults", quick=150, thorough=6000, judge="program"),
              dict(suite="e2e", quick=800, thorough=20000, judge="program")],
     corpus=["programs"], corpus_judge="program",
-    scope="At -O1 TOO (Props/ChainO1): with b' the result of the optimizer model at level 1 for ANY oracle, I/O failures stop the bytecode machine exactly like canonical. Bytecode machine at level 0 against the CANONICAL semantics (Props/Chain): a failing I/O operation stops the bytecode run with exactly the canonical events, in either mode, and it stops only then (bc_stops_like_canonical, bc_stops_only_like_canonical, bc_refused_byte). Environment semantics (end of input reads 0 and is sticky; read error / absent source / refused byte stop "
+    scope="AT EVERY OPTIMIZATION LEVEL (Props/ChainFinal): I/O failures stop the bytecode machine on optimized code exactly like canonical. At -O1 TOO (Props/ChainO1): with b' the result of the optimizer model at level 1 for ANY oracle, I/O failures stop the bytecode machine exactly like canonical. Bytecode machine at level 0 against the CANONICAL semantics (Props/Chain): a failing I/O operation stops the bytecode run with exactly the canonical events, in either mode, and it stops only then (bc_stops_like_canonical, bc_stops_only_like_canonical, bc_refused_byte). Environment semantics (end of input reads 0 and is sticky; read error / absent source / refused byte stop "
           "with the tape untouched; absent sink accepts silently) for the shared State operations; for each machine "
           "(canonical, in-place, IR, bytecode) a stop ends the run (no later event) and happens only at a failing I/O "
           "instruction; the events before a refused byte, and the refused byte itself, are exactly those of the "
@@ -633,8 +638,9 @@ PROPS["C06"] = dict(
 )
 
 PROPS["C10"] = dict(
-    modules=["Hpbf.Props.C10", "Hpbf.Props.C10Opt"],
-    theorems=t("Hpbf.OptOffs", "reach_le_iff tags_are_offsets irOffsL_eq offsets_le_reach' parse_reach_le_moves' parse_reach_le_length' optimize_reach' optimize_tags optimize_offsets optimize_irOffs optimize_keeps_bound optimizeOnce_reach deadStoreElimination_reach optimized_offsets_le_length optimized_window_le_length optimized_window_le_moves optimized_shift_le_length analyze_window_tight") +
+    modules=["Hpbf.Props.C10", "Hpbf.Props.C10Opt", "Hpbf.Props.C01Fixed"],
+    theorems=t("Hpbf.OptProof", "optimizeF_reach' optimizeF_offsets' optimizeF_keeps_bound' optimizedF_window_le_length' optimizedF_window_le_moves' optimizedF_shift_le_length'") +
+             t("Hpbf.OptOffs", "reach_le_iff tags_are_offsets irOffsL_eq offsets_le_reach' parse_reach_le_moves' parse_reach_le_length' optimize_reach' optimize_tags optimize_offsets optimize_irOffs optimize_keeps_bound optimizeOnce_reach deadStoreElimination_reach optimized_offsets_le_length optimized_window_le_length optimized_window_le_moves optimized_shift_le_length analyze_window_tight") +
              t("Hpbf.C10", "mode_irrelevant mode_irrelevant_for_outcome move_eq_of_no_growth unchecked_eq_safe "
                "unchecked_region reach_of_ptrRange parse_offsets_le_moves parse_offsets_le_length"),
     streams=[],
@@ -654,8 +660,9 @@ PROPS["C10"] = dict(
 )
 
 PROPS["C13"] = dict(
-    modules=["Hpbf.Props.C11", "Hpbf.Props.C12", "Hpbf.Props.C02EmitTotal", "Hpbf.Props.Chain", "Hpbf.Props.C01Dse", "Hpbf.Props.C03Total", "Hpbf.Props.C02AllocTotal", "Hpbf.Props.C01Rounds", "Hpbf.Props.C13Opt"],
-    theorems=t("Hpbf.OptProof", "optimizeOnce_rdOk' optimizeOnce_analSound'") +
+    modules=["Hpbf.Props.C11", "Hpbf.Props.C12", "Hpbf.Props.C02EmitTotal", "Hpbf.Props.Chain", "Hpbf.Props.C01Dse", "Hpbf.Props.C03Total", "Hpbf.Props.C02AllocTotal", "Hpbf.Props.C01Rounds", "Hpbf.Props.C13Opt", "Hpbf.Props.C01Fixed"],
+    theorems=t("Hpbf.OptProof", "optimizeF_no_panic' optimizeF_never_panics' optimizeF_total' optimizeF_canonL' dse_after_roundF'") +
+             t("Hpbf.OptProof", "optimizeOnce_rdOk' optimizeOnce_analSound'") +
              t("Hpbf.OptTotal", "oracle_error_not_panic parse_canonL' optimize_canonL' optimizeOnce_safe' optimizeM_safe' optimize_no_panic' optimize_never_panics optimize_no_panic_parse optimize_total' optimize_total_parse compile_pipeline_no_panic") +
              t("Hpbf.OptProof", "optimizeOnce_shape' optimizeOnce_shapeOk' dse_total_after_round' optimizeOnce_atMost_atLeast analSound_after_round1' round1_dse_preserves' optimize_preserves_of_steps'") +
              t("Hpbf.C02", "allocateTemps_total_of_pre totalPre_of_emit allocateTemps_total_of_emit translateE_total translateE_total_check") + t("Hpbf.C02.Alloc", "drainEnds_total liveMask_total alloc_step_total tinv_step alloc_total_defd_necessary alloc_total_defAt_necessary alloc_total_unread_necessary alloc_total_lastLt_necessary alloc_total_any_numRegs") +
@@ -697,8 +704,9 @@ PROPS["C13"] = dict(
 )
 
 PROPS["C02"] = dict(
-    modules=["Hpbf.Props.C02", "Hpbf.Props.C02Emit", "Hpbf.Props.C02Dse", "Hpbf.Props.C02Alloc", "Hpbf.Props.C02EmitTotal", "Hpbf.Props.C11", "Hpbf.Props.C07", "Hpbf.Props.Chain", "Hpbf.Props.C02AllocTotal", "Hpbf.Props.ChainTotal", "Hpbf.Props.ChainO1", "Hpbf.Props.ChainOn"],
-    theorems=t("Hpbf.Chain", "bcAgrees_anylevel bytecode_anylevel bytecode_anylevel_debug bytecode_anylevel_proper anylevel_all_backends") +
+    modules=["Hpbf.Props.C02", "Hpbf.Props.C02Emit", "Hpbf.Props.C02Dse", "Hpbf.Props.C02Alloc", "Hpbf.Props.C02EmitTotal", "Hpbf.Props.C11", "Hpbf.Props.C07", "Hpbf.Props.Chain", "Hpbf.Props.C02AllocTotal", "Hpbf.Props.ChainTotal", "Hpbf.Props.ChainO1", "Hpbf.Props.ChainOn", "Hpbf.Props.ChainFinal"],
+    theorems=t("Hpbf.Chain", "bcAgrees_final bytecode_final bytecode_final_debug all_levels_all_backends") +
+             t("Hpbf.Chain", "bcAgrees_anylevel bytecode_anylevel bytecode_anylevel_debug bytecode_anylevel_proper anylevel_all_backends") +
              t("Hpbf.Chain", "bytecode_level1 bytecode_level1_debug bytecode_level1_proper bcAgrees_level1 bcAgrees_of_ir level1_all_backends") +
              t("Hpbf.Chain", "translate_ok translate_check translate_refines_unconditional translate_refines_noOnce_unconditional translate_never_bad_unconditional bytecode_level0_unconditional bytecode_level0_debug_unconditional bytecode_level0_source same_bc same_bc_debug level0_all_backends") +
              t("Hpbf.C02", "allocateTemps_total_of_pre totalPre_of_emit allocateTemps_total_of_emit translateE_total translateE_total_check") + t("Hpbf.C02.Alloc", "drainEnds_total liveMask_total alloc_step_total tinv_step alloc_total_defd_necessary alloc_total_defAt_necessary alloc_total_unread_necessary alloc_total_lastLt_necessary alloc_total_any_numRegs") +
@@ -729,7 +737,7 @@ PROPS["C02"] = dict(
              dict(suite="bcrun", quick=60, thorough=3000, judge="bcrun"),
              dict(suite="e2e", quick=1200, thorough=40000, thorough_seeds=3, judge="program")],
     corpus=["programs"], corpus_judge="program",
-    scope="At -O1 TOO (Props/ChainO1): with b' the result of the optimizer model at level 1 for ANY oracle, bytecode_level1 / _debug: canonical = bytecode machine on translate b' (forward, backward, prefix), never bad. UNCONDITIONAL (Props/ChainTotal): with p := translate blk n fuse (proved total, never the sentinel: translate_ok) — bytecode_level0_unconditional / _debug_unconditional need only balancedness and w >= 1; translate_refines_unconditional for every IR block under OnceOk; the bytecode of translate never reaches a bad state in any mode, budget or fuel (translate_never_bad_unconditional). END TO END AT LEVEL 0 (Props/Chain): for EVERY source text, width >= 1 and environment, if translate succeeds on the parsed program then the bytecode machine (both dispatch profiles) has exactly the canonical events: canonical terminates/stops => bytecode does with the same trace, conversely, and unfinished runs are prefixes of each other (bytecode_level0, bytecode_level0_debug); for ANY IR block (i.e. also optimizer output) translate refines the IR semantics under OnceOk (translate_refines) — the four phase theorems composed, TargetsOk of emitted code proved (emit_targetsOk), the .ok chain shown to fail only at the panic sites of emission/allocation (translateE_ok_of_alloc). Proved on the exact Lean port of the generator and the bytecode machine: (1) the FIRST phase of translate "
+    scope="AT EVERY OPTIMIZATION LEVEL (Props/ChainFinal): bytecode_final / _debug — canonical = bytecode machine on translate of the repaired optimizer's output, forward/backward/prefix, no per-run hypothesis. At -O1 TOO (Props/ChainO1): with b' the result of the optimizer model at level 1 for ANY oracle, bytecode_level1 / _debug: canonical = bytecode machine on translate b' (forward, backward, prefix), never bad. UNCONDITIONAL (Props/ChainTotal): with p := translate blk n fuse (proved total, never the sentinel: translate_ok) — bytecode_level0_unconditional / _debug_unconditional need only balancedness and w >= 1; translate_refines_unconditional for every IR block under OnceOk; the bytecode of translate never reaches a bad state in any mode, budget or fuel (translate_never_bad_unconditional). END TO END AT LEVEL 0 (Props/Chain): for EVERY source text, width >= 1 and environment, if translate succeeds on the parsed program then the bytecode machine (both dispatch profiles) has exactly the canonical events: canonical terminates/stops => bytecode does with the same trace, conversely, and unfinished runs are prefixes of each other (bytecode_level0, bytecode_level0_debug); for ANY IR block (i.e. also optimizer output) translate refines the IR semantics under OnceOk (translate_refines) — the four phase theorems composed, TargetsOk of emitted code proved (emit_targetsOk), the .ok chain shown to fail only at the panic sites of emission/allocation (translateE_ok_of_alloc). Proved on the exact Lean port of the generator and the bytecode machine: (1) the FIRST phase of translate "
           "(analysis + value-numbering emission of every IR instruction, loops, ifs, fused scans, both fuse modes) "
           "refines the IR semantics for EVERY IR block at every width: emit_forward / emit_backward (same events, tape, "
           "pointer, environment for finished and I/O-stopped runs) and emit_prefix (unfinished runs are prefixes of each "
@@ -771,8 +779,9 @@ PROPS["C02"] = dict(
 
 
 PROPS["C03"] = dict(
-    modules=["Hpbf.Props.C03", "Hpbf.Props.C03Flow", "Hpbf.Props.C03Total", "Hpbf.Props.C11", "Hpbf.Props.C11Full", "Hpbf.Props.Chain", "Hpbf.Props.ChainTotal", "Hpbf.Props.ChainO1", "Hpbf.Props.ChainOn"],
-    theorems=t("Hpbf.Chain", "jit_anylevel_forward jit_anylevel_unique jit_anylevel_prefix jit_anylevel_divergent jit_anylevel_limited jit_anylevel_limited_enough anylevel_all_backends") +
+    modules=["Hpbf.Props.C03", "Hpbf.Props.C03Flow", "Hpbf.Props.C03Total", "Hpbf.Props.C11", "Hpbf.Props.C11Full", "Hpbf.Props.Chain", "Hpbf.Props.ChainTotal", "Hpbf.Props.ChainO1", "Hpbf.Props.ChainOn", "Hpbf.Props.ChainFinal"],
+    theorems=t("Hpbf.Chain", "jit_final_forward jit_final_unique jit_final_prefix jit_final_divergent jit_final_limited jit_final_limited_enough all_levels_all_backends") +
+             t("Hpbf.Chain", "jit_anylevel_forward jit_anylevel_unique jit_anylevel_prefix jit_anylevel_divergent jit_anylevel_limited jit_anylevel_limited_enough anylevel_all_backends") +
              t("Hpbf.Chain", "jit_level1_forward jit_level1_unique jit_level1_prefix jit_level1_divergent jit_level1_limited jit_level1_limited_enough translate_window_optimized jitRange_window_of_length level1_all_backends") +
              t("Hpbf.Chain", "jitCode_spec jitHyps_of_range jit_level0_forward_unconditional jit_level0_unique_unconditional jit_level0_prefix_unconditional jit_level0_divergent_unconditional jit_level0_limited_unconditional jit_level0_limited_enough_unconditional jit_forward_fin jit_limited_fin level0_all_backends") +
              t("Hpbf.C03", "total_emitCopy total_emitAdd total_emitSub total_emitMul total_selector_iff selector_total selector_total_converse total_savedRegs total_emit_shape total_alloc_shape total_reorder_jitForm translate_jitForm translate_jitForm_numRegs total_arith_fits total_emitInstr compile_total_modulo_fits total_fits_of_bounds translate_compile translate_compile_of_localOk") + t("Hpbf.C02", "translateE_check") +
@@ -792,7 +801,7 @@ PROPS["C03"] = dict(
              dict(suite="irgen", quick=1500, thorough=80000, judge="tie"),
              dict(suite="e2e", quick=1500, thorough=50000, thorough_seeds=3, judge="program")],
     corpus=["programs", "jitforms"], corpus_judge="program",
-    scope="At -O1 TOO (Props/ChainO1): with b' the result of the optimizer model at level 1 for ANY oracle, jit_level1_*: as jit_level0_*_unconditional for translate b' 11 false; the window fields of JitRange follow from bytes*length(source) < 2^31 (jitRange_window_of_length). UNCONDITIONAL UP TO RANGES (Props/ChainTotal): for p := translate (parse src) 11 false the contract check and the success of compileX86 are theorems; jit_level0_*_unconditional take only JitRange (supported width, code < 2^31 bytes, window/shift/temps displacements inside i32, distinct runtime addresses, stack alignment, budget < 2^64, no allocation beyond 2^40 cells). END TO END AT LEVEL 0 (Props/Chain): source text -> parse -> translate -> compileX86 -> program-level x86 machine: under the bundled hypotheses of prog_run (JitHyps), a canonically terminating program makes the machine code return 1 (0 after an I/O stop) with exactly the canonical events, every return is that one (jit_level0_forward, jit_level0_unique), running code only ever has emitted a canonical prefix (jit_level0_prefix), and in limited mode the function always returns, with rax = 1 only for a complete canonical run (jit_level0_limited). WHOLE-PROGRAM simulation, proved on the exact Lean port of the code generator (JitGen.compileX86) and an "
+    scope="AT EVERY OPTIMIZATION LEVEL (Props/ChainFinal): jit_final_* for translate b' 11 false with b' the repaired optimizer's output, under JitRange only. At -O1 TOO (Props/ChainO1): with b' the result of the optimizer model at level 1 for ANY oracle, jit_level1_*: as jit_level0_*_unconditional for translate b' 11 false; the window fields of JitRange follow from bytes*length(source) < 2^31 (jitRange_window_of_length). UNCONDITIONAL UP TO RANGES (Props/ChainTotal): for p := translate (parse src) 11 false the contract check and the success of compileX86 are theorems; jit_level0_*_unconditional take only JitRange (supported width, code < 2^31 bytes, window/shift/temps displacements inside i32, distinct runtime addresses, stack alignment, budget < 2^64, no allocation beyond 2^40 cells). END TO END AT LEVEL 0 (Props/Chain): source text -> parse -> translate -> compileX86 -> program-level x86 machine: under the bundled hypotheses of prog_run (JitHyps), a canonically terminating program makes the machine code return 1 (0 after an I/O stop) with exactly the canonical events, every return is that one (jit_level0_forward, jit_level0_unique), running code only ever has emitted a canonical prefix (jit_level0_prefix), and in limited mode the function always returns, with rax = 1 only for a complete canonical run (jit_level0_limited). WHOLE-PROGRAM simulation, proved on the exact Lean port of the code generator (JitGen.compileX86) and an "
           "executable program-level x86 machine (X86Prog: byte-addressed code, flags, push/pop, rel8/rel32 jumps, the three "
           "runtime calls as atomic transitions that clobber every caller-saved register): prog_run — for every bytecode "
           "program that passes the verified contract checker (BcWf.check p 11) and compiles, from the entry state the "
